@@ -13,7 +13,7 @@ RULES = [
     (r'push_token\(resources, token_type\(resources\.new_selector\(index_selector<Json,JsonReference>\(n\)\)\), ec\);', 'vx_push_token(K_INDEX, n, ec_p);', 1, N),
     (r'push_token\(resources, token_type\(resources\.new_selector\(slice_selector<Json,JsonReference>\(slic\)\)\), ec\);', 'vx_push_slice(slic, ec_p);', 0, N),
     (r'buffer\.empty\(\)', '(vx_buflen == 0)', 1, N), (r'buffer\.clear\(\);', 'vx_buflen = 0;', 1, N),
-    (r'slic\.stop_ = jsoncons::optional<int64_t>\(n\);', 'slic.stop_has = true; slic.stop_ = n;', 0, 1), (r'slic\.start_ = n;', 'slic.start_has = true; slic.start_ = n;', 1, 1),
+    (r'slic\.(start|stop)_ = (?:jsoncons::optional<int64_t>\()?n\)?;', r'slic.\1_has = true; slic.\1_ = n;', 1, 3),
     (r'slic = slice\{\};', 'slic = vx_slice_default();', 0, 2),
     (r'state_stack_\.back\(\) = path_state::(\w+);', r'vx_stk[vx_sp - 1] = path_state_\1;', 1, N), (r'state_stack_\.emplace_back\(path_state::(\w+)\);', r'vx_stk[vx_sp++] = path_state_\1;', 1, N),
     (r'state_stack_\.pop_back\(\);', 'vx_sp--;', 1, N), (r'advance_past_space_character\(\);', 'vx_advance_ws();', 1, N), (r'case path_state::(\w+):', r'case path_state_\1:', 1, N),
